@@ -28,6 +28,36 @@ Theorem C10_concurrent_send_decodes : forall sched ls,
 Proof. exact concurrent_send_decodes. Qed.
 Print Assumptions C10_concurrent_send_decodes.
 
+(* the documented limit is inclusive: a message whose payload is exactly MaxPayloadSize bytes is a valid message (so
+   every statement of this file speaks about it), it is read back whole over every fragmentation; a header
+   announcing one byte more is refused after the 28 header bytes, nothing of the payload is consumed.  The harness
+   sends both through real endpoints (go/cmd/qv/c10limits.go). *)
+Theorem C10_limit_is_inclusive : forall m rest sch,
+  valid_header (m_header m) -> h_size (m_header m) = N.of_nat (List.length (m_payload m)) ->
+  h_size (m_header m) = MaxPayloadSize -> pos_sched sch ->
+  valid_msg m /\
+  exists sch', read_msg {| s_data := enc_msg m ++ rest; s_sched := sch |} =
+                 Some (Ok m, {| s_data := rest; s_sched := sch' |}) /\ pos_sched sch'.
+Proof.
+  intros m rest sch Hv Hsz Hmax Hpos.
+  assert (Hm : valid_msg m) by (repeat split; try apply Hv; [exact Hsz|rewrite Hmax; apply N.le_refl]).
+  split; [exact Hm|]. now apply read_msg_roundtrip.
+Qed.
+Print Assumptions C10_limit_is_inclusive.
+
+Theorem C10_above_limit_refused : forall h rest sch,
+  valid_header h -> (MaxPayloadSize < h_size h)%N -> pos_sched sch ->
+  exists sch', read_msg {| s_data := enc_header h ++ rest; s_sched := sch |} =
+                 Some (Err EOther, {| s_data := rest; s_sched := sch' |}).
+Proof.
+  intros h rest sch Hv Hlt Hpos. unfold read_msg, HeaderSize.
+  destruct (readN_frag 28 (enc_header h) rest sch Hpos (enc_header_length _)) as [sch1 [Hr1 _]].
+  rewrite Hr1, (dec_enc_header _ Hv).
+  replace (MaxPayloadSize <? h_size h)%N with true by (symmetry; apply N.ltb_lt; exact Hlt).
+  eexists; reflexivity.
+Qed.
+Print Assumptions C10_above_limit_refused.
+
 Theorem C10_concurrent_send_complete : forall sched ls w' rest tagged,
   Forall (Forall valid_msg) ls ->
   send_run sched ls {| w_calls := []; w_sched := [] |} [] = Some (Ok (w', rest, tagged)) ->
